@@ -85,12 +85,15 @@ var regexAtoms = []string{
 	"a", ".", "*", "+", "?", "|", "(", ")", "[", "]", "^", "$", "{", "}", ",", "1", `\`, `\d`, `\p{`, `\x`, "#", "-",
 	`\w`, `\pL`, `\P{Latin}`, `\x{`, `\xff`, `\u`, "é", `\U`, "(?:", "(?<", "(?P<", ">", `\b`, `\A`, `\z`, "[[:alpha:]]", "[:", ":]", "[^",
 	`\Q`, `\E`, "\xff", " ", "\n", `\1`, `\o`, `\o{`, `\c`, `\cA`, `\h`, `\N`, "(?i)", "(?", "{1,2}", "{,", "*?", "++", `\/`, "/",
-	`\e`, `\a`, `\-`, "&&",
+	`\e`, `\a`, `\-`, "&&", "_",
 }
 
 // corpus: syntactically rich, valid programs; their prefixes and one-token edits are what a user
 // types into the REPL.
 var corpus = []string{
+	// a generic class that structurally implements a generic interface through a polymorphically recursive method:
+	// the subtype check must terminate although every unfolding has a bigger type argument
+	"class Foo[T]\n  def wrap: Foo[Foo[T]] then loop; end\nend\ninterface Bar[T]\n  def wrap: Bar[Bar[T]]; end\nend\nvar a: Bar[Int] = Foo::[Int]()\n",
 	"f := |a: Int|: Int -> a + 1\nf.(2)\n",
 	"f := || -> 1\nf.()\n",
 	"g := |a| -> a\n",
